@@ -169,7 +169,8 @@ class C15(Prop):
         return self._g % self._nshards == self._shard
 
     def gen_hash_lists(self, rng, big):
-        counts = COUNTS + ([rng.randrange(71, 1025) for _ in range(40)] if big else [])
+        counts = (sorted(set(COUNTS) | set(range(71, 301)) | {2047, 2048, 2049}) + [rng.randrange(300, 2049) for _ in range(60)]
+                  if big else COUNTS)
         for n in counts:
             if not self.mine():
                 continue
@@ -194,7 +195,7 @@ class C15(Prop):
             yield mk('c15.tree', '', tag='tree n=0')
 
     def gen_tx_lists(self, rng, big):
-        counts = COUNTS if big else list(range(1, 71)) + [127, 128, 129, 255, 256, 257, 1023, 1024, 1025]
+        counts = COUNTS + list(range(71, 127, 3)) + [rng.randrange(130, 1025) for _ in range(12)] if big else list(range(1, 71)) + [127, 128, 129, 255, 256, 257, 1023, 1024, 1025]
         patterns = ['none', 'empty', 'one', 'mixed', 'all', 'cbonly', 'dups', 'dupwit']
         for n in counts:
             pats = patterns if (big or n <= 70) else [rng.choice(patterns), 'mixed']
@@ -216,6 +217,8 @@ class C15(Prop):
                     roots.append(('witness-root', ref_witness_root(txs)))
                     roots.append(('wtxid-root', ref_root([wtxid(t) for t in txs])))
                 if n > 1:
+                    roots.append(('first-txid', txid(txs[0])))
+                    roots.append(('last-txid', txid(txs[-1])))
                     roots.append(('prefix-root', ref_root([txid(t) for t in txs[:-1]])))
                 if n % 2 == 1 and n > 1:
                     roots.append(('dup-tail-root', ref_root([txid(t) for t in txs + [txs[-1]]])))
@@ -280,7 +283,7 @@ class C15(Prop):
     def gen_weights(self, rng, big):
         lens = [0, 1, 0x4b, 0x4c, 0xfc, 0xfd, 0xfe, 0xff, 0x100, 300, 0xffff, 0x10000]
         lens += [v for v in self.pool if 0 <= v <= 70000]
-        reps = 6 if big else 1
+        reps = 20 if big else 1
         for _ in range(reps):
             for slen in lens:
                 for wit in ('none', 'empty', 'some', 'all', 'short'):
